@@ -286,6 +286,30 @@ func (c *Ctx) ruleNoGlobalWrites(r *Report, rule string) {
 			}
 		}
 	}
+	// uses of package-level variables outside initialisation: loads whose value is only read
+	for _, fn := range c.allFuncs() {
+		if !inRepo(fn) || fn.Pkg == nil || fn.Pkg.Pkg.Path() != bclPath {
+			continue
+		}
+		name := ssaFuncName(fn)
+		if name == "init" || strings.HasPrefix(name, "init$") || strings.HasPrefix(name, "init#") {
+			continue
+		}
+		for _, b := range fn.Blocks {
+			for _, ins := range b.Instrs {
+				for _, op := range ins.Operands(nil) {
+					g, ok := (*op).(*ssa.Global)
+					if !ok || g.Pkg == nil || g.Pkg.Pkg.Path() != bclPath {
+						continue
+					}
+					if why := globalUseMutable(ins, g); why != "" {
+						n++
+						r.bad(rule, name+"/"+g.Name()+"/use", fmt.Sprintf("%s %s package variable %s: memory shared by all calls in the process can be written through it", name, why, g.Name()), c.pos(ins.Pos()))
+					}
+				}
+			}
+		}
+	}
 	// package-level variables of kinds that carry state across calls
 	var vars []string
 	sc := c.Bcl.Types.Scope()
@@ -353,4 +377,75 @@ func ssaReadOnly(v ssa.Value, depth int) bool {
 		}
 	}
 	return true
+}
+
+// globalUseMutable: how instruction ins uses the address of global g, when
+// that use can lead to a write ("" for plain reads).
+func globalUseMutable(ins ssa.Instruction, g *ssa.Global) string {
+	switch x := ins.(type) {
+	case *ssa.UnOp:
+		if x.Op == token.MUL {
+			// the value loaded: arrays and structs are copies; slices, maps and pointers alias
+			switch x.Type().Underlying().(type) {
+			case *types.Slice, *types.Map, *types.Pointer:
+				if elemWritten(x) {
+					return "writes through the slice/map/pointer held in"
+				}
+			}
+			return ""
+		}
+	case *ssa.Store:
+		if x.Addr == ssa.Value(g) {
+			return "" // reported as a store already
+		}
+		return "stores the address of"
+	case *ssa.IndexAddr:
+		if addrStored(x) {
+			return "writes an element of"
+		}
+		if addrEscapes(x) {
+			return "hands out the address of an element of"
+		}
+		return ""
+	case *ssa.FieldAddr:
+		if addrStored(x) {
+			return "writes a field of"
+		}
+		return ""
+	case *ssa.Slice:
+		if ssaReadOnly(x, 0) {
+			return ""
+		}
+		return "slices (a mutable view of)"
+	case *ssa.DebugRef:
+		return ""
+	case ssa.CallInstruction:
+		return "passes the address of"
+	case *ssa.MakeClosure, *ssa.MakeInterface, *ssa.Phi, *ssa.Return:
+		return "lets escape the address of"
+	}
+	return ""
+}
+
+func addrEscapes(v ssa.Value) bool {
+	refs := v.Referrers()
+	if refs == nil {
+		return false
+	}
+	for _, r := range *refs {
+		switch r := r.(type) {
+		case *ssa.UnOp, *ssa.DebugRef:
+		case *ssa.FieldAddr:
+			if addrEscapes(r) {
+				return true
+			}
+		case *ssa.Store:
+			if r.Val == v {
+				return true
+			}
+		default:
+			return true
+		}
+	}
+	return false
 }
